@@ -68,6 +68,8 @@ fn gen(rng: &mut Rng, _idx: u64, tier: Tier) -> Case {
     args.push(format!("--delete-after={}", d));
     if rng.chance(0.5) { args.push("--update=-1".into()); }
     if rng.chance(0.3) { args.push("--count-df".into()); }
+    if rng.chance(0.2) { for k in [0u32, 4, 5, 11, 16, 17, 18, 20, 21] { if rng.chance(0.6) { args.push(format!("--filter={}", k)); } } }
+    gen::add_neutral_options(rng, &mut args, false, true);
     let n = if tier == Tier::Thorough && rng.chance(0.05) { rng.range(100, 600) } else { rng.range(2, 40) } as usize;
     let valid = gen::traffic(rng, &mut acs, n, d, gen::COMMON_KINDS, false, true, 15_000_000);
     // insert junk
